@@ -6,56 +6,61 @@ from collections import defaultdict
 CMP_BIN = {"Eq", "Ne", "Lt", "Le", "Gt", "Ge"}
 NEG = {"Eq": "Ne", "Ne": "Eq", "Lt": "Ge", "Ge": "Lt", "Gt": "Le", "Le": "Gt"}
 SWAP = {"Eq": "Eq", "Ne": "Ne", "Lt": "Gt", "Gt": "Lt", "Le": "Ge", "Ge": "Le"}
-CMP_CALLS = {
-    "std::cmp::PartialEq::eq": "Eq",
-    "std::cmp::PartialEq::ne": "Ne",
-    "std::cmp::PartialOrd::lt": "Lt",
-    "std::cmp::PartialOrd::le": "Le",
-    "std::cmp::PartialOrd::gt": "Gt",
-    "std::cmp::PartialOrd::ge": "Ge",
+CMP_TAILS = {
+    "PartialEq::eq": "Eq",
+    "PartialEq::ne": "Ne",
+    "PartialOrd::lt": "Lt",
+    "PartialOrd::le": "Le",
+    "PartialOrd::gt": "Gt",
+    "PartialOrd::ge": "Ge",
 }
-# calls that are transparent wrappers around their first argument for slicing purposes
-TRANSPARENT = (
-    "std::ops::Deref::deref",
-    "std::ops::DerefMut::deref_mut",
-    "std::convert::AsRef::as_ref",
-    "std::convert::AsMut::as_mut",
-    "std::borrow::Borrow::borrow",
-    "std::clone::Clone::clone",
-    "std::convert::Into::into",
-    "std::convert::From::from",
-    "std::iter::IntoIterator::into_iter",
-    "std::borrow::ToOwned::to_owned",
-    "std::option::Option::<T>::as_ref",
-    "std::option::Option::<T>::as_deref",
-    "std::option::Option::<T>::as_mut",
-    "std::result::Result::<T, E>::as_ref",
-    "std::vec::Vec::<T, A>::as_slice",
-    "std::slice::<impl [T]>::iter",
-    "std::hint::must_use",
-    "std::pin::Pin::<Ptr>::new",
-    "std::pin::Pin::<Ptr>::new_unchecked",
-    "std::pin::Pin::<Ptr>::as_mut",
-    "std::pin::Pin::<&'a mut T>::get_unchecked_mut",
-    "std::future::IntoFuture::into_future",
-    "std::boxed::Box::<T>::new",
-    "std::boxed::Box::<T>::pin",
-    "std::sync::Arc::<T>::new",
-)
-LEN_CALLS = (
-    "std::vec::Vec::<T, A>::len",
-    "std::slice::<impl [T]>::len",
-    "std::vec::Vec::<T, A>::is_empty",
-    "std::slice::<impl [T]>::is_empty",
-    "std::string::String::len",
-    "std::str::<impl str>::len",
-    "std::collections::VecDeque::<T, A>::len",
-    "std::collections::HashSet::<T, S>::len",
-    "std::collections::HashMap::<K, V, S>::len",
-    "bytes::Bytes::len",
-    "bytes::Bytes::is_empty",
-    "std::iter::ExactSizeIterator::len",
-)
+# std-library calls are classified by the last two path segments (generic arguments and the
+# internal module path stripped), so the tables do not depend on where core/alloc keep an item
+TRANSPARENT_TAILS = {
+    "Deref::deref", "DerefMut::deref_mut", "AsRef::as_ref", "AsMut::as_mut", "Borrow::borrow",
+    "Clone::clone", "Into::into", "From::from", "IntoIterator::into_iter", "ToOwned::to_owned",
+    "Option::as_ref", "Option::as_deref", "Option::as_mut", "Result::as_ref", "Vec::as_slice",
+    "<impl [T]>::iter", "hint::must_use", "Pin::new", "Pin::new_unchecked", "Pin::as_mut",
+    "Pin::get_unchecked_mut", "Pin::get_mut", "IntoFuture::into_future", "Box::new", "Box::pin",
+    "Arc::new", "Option::cloned", "Option::copied", "String::as_str", "<impl str>::as_bytes",
+    "Iterator::copied", "Iterator::cloned", "<impl [T]>::to_vec", "Vec::as_ref",
+}
+LEN_TAILS = {
+    "Vec::len", "<impl [T]>::len", "Vec::is_empty", "<impl [T]>::is_empty", "String::len",
+    "<impl str>::len", "VecDeque::len", "HashSet::len", "HashMap::len", "ExactSizeIterator::len",
+    "String::is_empty", "VecDeque::is_empty", "HashMap::is_empty", "HashSet::is_empty",
+    "Bytes::len", "Bytes::is_empty", "BytesMut::len",
+}
+RESULT_TAILS = {
+    "Result::map_err", "Result::map", "Result::and_then", "Result::inspect_err", "Result::inspect",
+    "Option::ok_or", "Option::ok_or_else", "Option::map", "Option::and_then", "Option::filter",
+    "Into::into", "From::from", "Try::branch",
+}
+_TAIL_MEMO = {}
+
+
+def std_tail(name):
+    """`core::result::Result::<T, E>::map_err` -> `Result::map_err`; None for non-std paths."""
+    t = _TAIL_MEMO.get(name)
+    if t is not None or name in _TAIL_MEMO:
+        return t
+    t = None
+    if name.startswith(("core::", "alloc::", "std::", "bytes::")):
+        x = name
+        prev = None
+        while prev != x:
+            prev = x
+            x = re.sub(r"::<[^<>]*>", "", x)
+        # protect `<impl ...>` segments
+        segs = re.split(r"::(?![^<]*>)", x)
+        t = "::".join(segs[-2:])
+    _TAIL_MEMO[name] = t
+    return t
+
+
+def is_tail(name, tails):
+    t = std_tail(name)
+    return t is not None and t in tails
 
 
 def glob(pat, s):
@@ -603,7 +608,7 @@ def leaves(e, facts=None, depth=0):
             out.add("call:" + x[1])
             if x[2] != x[1]:
                 out.add("call:" + x[2])
-            if x[1] in LEN_CALLS or x[2] in LEN_CALLS or x[1].endswith("::len") or x[1].endswith("::is_empty"):
+            if is_tail(x[2], LEN_TAILS) or x[1].endswith("::len") or x[1].endswith("::is_empty"):
                 for a in x[3][:1]:
                     for lf in leaves(a):
                         if lf.startswith("a"):
